@@ -200,3 +200,138 @@ Definition sv_is_inline (literal : N) (v : sview) : bool := sv_len v <=? literal
 (* ---- hash table directories *)
 Definition offset_from_hash (hash cap : N) : N := N.land hash (cap - 1).     (* hash & (cap - 1) *)
 Definition inc_and_wrap (offset cap : N) : N := N.land (offset + 1) (cap - 1).
+
+(* ---------------------------------------------------------------- inline / reference PREDICATES, site by site *)
+(* every length test that chooses between the inline and the reference variant of the string unions, as written:
+   operator code 0 `<`, 1 `<=`, 2 `>`, 3 `>=` against a right-hand side (gen/TablesLayout.v) *)
+Record pred := { pr_op : N; pr_rhs : N }.
+Definition holds (p : pred) (len : N) : bool :=
+  match pr_op p with
+  | 0 => len <? pr_rhs p
+  | 1 => len <=? pr_rhs p
+  | 2 => pr_rhs p <? len
+  | 3 => pr_rhs p <=? len
+  | _ => false
+  end.
+Record str_preds := {
+  push_inline : pred;            (* array_buffer.rs: `if value.len() <= MAX_INLINE_LEN { StringView::new_inline .. }` *)
+  sv_inline : pred;              (* StringView::is_inline  (array readers; the row writer and heap sizing: `!view.is_inline()`) *)
+  sv_reference : pred;           (* StringView::is_reference *)
+  sv_inline_assert : pred;       (* assert! in StringView::new_inline *)
+  sv_reference_assert : pred;    (* assert! in StringView::new_reference *)
+  sp_inline : pred;              (* StringPtr::is_inline   (row readers: StringPtr::as_bytes dispatches on it) *)
+  sp_reference : pred;           (* StringPtr::is_reference *)
+  sp_inline_assert : pred;       (* assert! in StringPtr::new_inline *)
+  sp_reference_assert : pred }.  (* assert! in StringPtr::new_reference (row writer, reference path) *)
+
+Inductive repr := RInline | RReference.          (* the union variant that was WRITTEN *)
+Inductive acc (A : Type) := Safe (a : A) | Wild | AssertFail.   (* Wild: one variant read as the other *)
+Arguments Safe {A} a.
+Arguments Wild {A}.
+Arguments AssertFail {A}.
+
+(* pushing a value of `len` bytes into a string array *)
+Definition push_view (S : str_preds) (len : N) : acc repr :=
+  if holds (push_inline S) len
+  then (if holds (sv_inline_assert S) len then Safe RInline else AssertFail)
+  else (if holds (sv_reference_assert S) len then Safe RReference else AssertFail).
+(* write_binary for a valid value whose view was written as variant v: `if !view.is_inline()` copies the bytes to
+   the heap block (reading the view as a reference) and stores StringPtr::new_reference, else stores
+   StringPtr::from( *view.as_inline()) *)
+Definition row_write (S : str_preds) (v : repr) (len : N) : acc repr :=
+  if negb (holds (sv_inline S) len)
+  then match v with
+       | RReference => if holds (sp_reference_assert S) len then Safe RReference else AssertFail
+       | RInline => Wild
+       end
+  else match v with RInline => Safe RInline | RReference => Wild end.
+(* StringPtr::as_bytes: `if self.is_inline() { inline bytes } else { from_raw_parts(reference.ptr, len) }` *)
+Definition row_read (S : str_preds) (p : repr) (len : N) : acc N :=
+  if holds (sp_inline S) len
+  then match p with RInline => Safe len | RReference => Wild end
+  else match p with RReference => Safe len | RInline => Wild end.
+Definition roundtrip (S : str_preds) (len : N) : acc N :=
+  match push_view S len with
+  | Safe v => match row_write S v len with Safe p => row_read S p len | Wild => Wild | AssertFail => AssertFail end
+  | Wild => Wild
+  | AssertFail => AssertFail
+  end.
+(* a predicate that is `len <= k` / `len > k` for all lengths, if it is one *)
+Definition le_thr (p : pred) : option N :=
+  match pr_op p with
+  | 1 => Some (pr_rhs p)
+  | 0 => if pr_rhs p =? 0 then None else Some (pr_rhs p - 1)
+  | _ => None
+  end.
+Definition gt_thr (p : pred) : option N :=
+  match pr_op p with
+  | 2 => Some (pr_rhs p)
+  | 3 => if pr_rhs p =? 0 then None else Some (pr_rhs p - 1)
+  | _ => None
+  end.
+Definition optN_is (o : option N) (k : N) : bool := match o with Some x => x =? k | None => false end.
+Definition preds_agree (S : str_preds) (k : N) : bool :=
+  optN_is (le_thr (push_inline S)) k && optN_is (le_thr (sv_inline S)) k && optN_is (le_thr (sv_inline_assert S)) k &&
+  optN_is (le_thr (sp_inline S)) k && optN_is (le_thr (sp_inline_assert S)) k &&
+  optN_is (gt_thr (sv_reference S)) k && optN_is (gt_thr (sv_reference_assert S)) k &&
+  optN_is (gt_thr (sp_reference S)) k && optN_is (gt_thr (sp_reference_assert S)) k.
+
+(* ---------------------------------------------------------------- heap sizes (RowLayout::compute_heap_sizes) *)
+(* a Utf8/Binary array as the row code sees it: validity per row, the array's own selection (row -> view index),
+   the byte length of every view *)
+Record sarray := { a_valid : list bool; a_sel : list nat; a_lens : list N }.
+(* the contribution of one array to one output row in compute_heap_sizes:
+     if array.validity.is_valid(row) { let sel = selection.get(row).unwrap(); let view = metadatas[sel];
+                                       if !view.is_inline() { sizes[output] += view.data_len() } }
+   None = an index panics *)
+Definition heap_contrib (S : str_preds) (a : sarray) (row : nat) : option N :=
+  match nth_error (a_valid a) row with
+  | None => None
+  | Some false => Some 0
+  | Some true =>
+    match nth_error (a_sel a) row with
+    | None => None
+    | Some sel => match nth_error (a_lens a) sel with
+                  | None => None
+                  | Some len => Some (if holds (sv_inline S) len then 0 else len)
+                  end
+    end
+  end.
+(* `for (output, row) in rows.into_iter().enumerate()` for one array *)
+Fixpoint add_array (S : str_preds) (a : sarray) (rows : list nat) (sizes : list N) : option (list N) :=
+  match rows, sizes with
+  | [], [] => Some []
+  | r :: rs, s :: ss =>
+    match heap_contrib S a r, add_array S a rs ss with
+    | Some c, Some rest => Some (s + c :: rest)
+    | _, _ => None
+    end
+  | _, _ => None
+  end.
+(* `sizes.fill(0); for array in arrays { .. }` *)
+Definition compute_heap_sizes (S : str_preds) (arrays : list sarray) (rows : list nat) : option (list N) :=
+  fold_left (fun acc a => match acc with Some sz => add_array S a rows sz | None => None end)
+            arrays (Some (repeat 0 (List.length rows))).
+
+(* what write_binary copies to the heap for one array and one row: the all-valid fast path does not look at the
+   validity, the other path does *)
+Definition write_contrib (S : str_preds) (a : sarray) (row : nat) : option N :=
+  let body := match nth_error (a_sel a) row with
+              | None => None
+              | Some sel => match nth_error (a_lens a) sel with
+                            | None => None
+                            | Some len => Some (if negb (holds (sv_inline S) len) then len else 0)
+                            end
+              end in
+  if forallb (fun b => b) (a_valid a) then body
+  else match nth_error (a_valid a) row with
+       | None => None
+       | Some true => body
+       | Some false => Some 0
+       end.
+(* bytes written for one row over all arrays (heap_pointers[output] advances by each) *)
+Definition bytes_written (S : str_preds) (arrays : list sarray) (row : nat) : option N :=
+  fold_left (fun acc a => match acc, write_contrib S a row with Some x, Some c => Some (x + c) | _, _ => None end)
+            arrays (Some 0).
+(* prepare_append (heap part): one heap block of `sum sizes` bytes, heap pointer i at the sum of the sizes before i *)
+Definition heap_block_of (sizes : list N) : list N * N := offsets_from (fun s => s) 0 sizes.
